@@ -132,8 +132,6 @@ func RestoreFaultPart(run *report.Run, st *Setup, cases, faultsPerCase int, kind
 				env.Memo[mk] = mv
 			}
 		}
-		if i == 0 {
-			run.Sample(map[string]any{"fault_case": i, "shape": s.Shape(), "minimal": minimal, "history": env.Log})
-		}
+		run.Sample(map[string]any{"fault_case": i, "shape": s.Shape(), "minimal": minimal, "history": env.Log})
 	})
 }
